@@ -5,7 +5,7 @@ from checks import c01
 FUNCTIONS = c01.FUNCTIONS + ['depccg/parsing.pyx: run, retrieve_tree, scaffold, init_config (translated, executed on the native build): the Tree objects delivered for one witness of EVERY explored path are validated',
                             'depccg/tree.py: Tree.make_terminal/make_unary/make_binary']
 BOUNDS = {
-    'quick': 'every path of the search for: n = 1 (4 tags, unary), n = 2 (2 tags per word; G5, G4 with several results per pair, G3c unary chain), n = 3 with one admitted tag per word (G1, G2, real en/ja tables); n-best 1-3; all scores solver variables.  Per path: the back-pointer tree is validated symbolically, and the tree delivered by the real finalizer for a solver-chosen witness is validated and must equal it',
+    'quick': 'every path of the search for: n = 1 (4 tags, unary), n = 2 (2 tags per word; G5, G4 with several results per pair, G3c unary chain), n = 3 with one admitted tag per word (G1, G2, G7/G7x: unary step over a two-word head-final span, real en/ja tables); n-best 1-3; all scores solver variables.  Per path: the back-pointer tree is validated symbolically, and the tree delivered by the real finalizer for a solver-chosen witness is validated and must equal it',
     'thorough': 'adds n = 3 with G4 n-best 3, n = 4 GU',
 }
 OUTSIDE = c01.OUTSIDE
@@ -34,6 +34,7 @@ def obligations(tier):
     obs.append(S.SOb('C02.valid[G1,n=3,tags=1,max_step=5]', S.G1(True), 3, S.one_tag(3, 3), pruning=1, penalty='0', max_step=5))
     obs.append(S.SOb('C02.valid[G7,n=3,tags=1,penalty=sym]', S.G7(False), 3, S.one_tag(3, 3), pruning=1, penalty='sym'))
     obs.append(S.SOb('C02.valid[G7,n=3,tags=1,nbest=2]', S.G7(False), 3, S.one_tag(3, 3), pruning=1, penalty='sym', nbest=2))
+    obs.append(S.SOb('C02.valid[G7x,n=3,tags=1,nbest=2]', S.G7x(False), 3, S.one_tag(3, 3), pruning=1, penalty='sym', nbest=2))
     if not q:
         obs.append(S.SOb('C02.valid[G4,n=3,tags=1:[0,1,0],nbest=3]', g4, 3, S.one_tag(3, 2, [0, 1, 0]), pruning=1, penalty='sym', nbest=3, max_seconds=900))
         obs.append(S.SOb('C02.valid[GU,n=4,tags=1]', c01.GUn(4), 4, S.one_tag(4, 4), pruning=1, penalty='0', max_seconds=1500))
